@@ -153,6 +153,56 @@ func primsPasswords(r *vh.Run) {
 	}
 }
 
+// sig: the part of a password that is significant for the algorithm — R <= 4: pad32 (the first 32 bytes,
+// padded; C22_pad32_prefix); R5/R6: the prepared password truncated to 127 bytes (the alphabets used here
+// are fixed points of the reader's preparation).  Two passwords with the same sig ARE the same credential.
+func sig(a alg, pw string) string {
+	if a.Len != 256 {
+		return padRef(pw)
+	}
+	b := []byte(pw)
+	if len(b) > 127 {
+		b = b[:127]
+	}
+	return string(b)
+}
+
+func sigEq(a alg, x, y string) bool { return sig(a, x) == sig(a, y) }
+
+// stale: after a password change, opening with the old password alone (in its slot).
+// - the same credential as the new one (equal significant part): must still open;
+// - the same credential as the OTHER password of the document (with an empty owner slot Algorithm 7 tries the
+//   user password as owner password; an empty user password opens any slot): either outcome, counted;
+// - otherwise it must be refused.
+func staleCheck(r *vh.Run, a alg, file []byte, owner bool, old, neu, other string, in map[string]any) {
+	var err error
+	if owner {
+		_, err = readCtx(file, "", old)
+	} else {
+		_, err = readCtx(file, old, "")
+	}
+	what := "upw"
+	if owner {
+		what = "opw"
+	}
+	switch {
+	case sigEq(a, old, neu):
+		r.Count("stale-" + what + ":same-credential-as-new")
+		if err != nil {
+			r.OracleFail("after-change-"+what+":equivalent-old-password-rejected", in, err.Error())
+		} else {
+			r.OracleOK()
+		}
+	case sigEq(a, old, other) || (owner && sigEq(a, other, "")):
+		r.Count("stale-" + what + ":same-credential-as-other-password")
+	case err == nil:
+		r.OracleFail("after-change-"+what+":old-password-still-opens", in, "the old password differs from both current passwords in its significant part and was accepted")
+	default:
+		r.Count("stale-" + what + ":refused")
+		r.OracleOK()
+	}
+}
+
 func padRef(pw string) string {
 	pad := []byte{0x28, 0xBF, 0x4E, 0x5E, 0x4E, 0x75, 0x8A, 0x41, 0x64, 0x00, 0x4E, 0x56, 0xFF, 0xFA, 0x01, 0x08,
 		0x2E, 0x2E, 0x00, 0xB6, 0xD0, 0x68, 0x3E, 0x80, 0x2F, 0x0C, 0xA9, 0xFE, 0x64, 0x53, 0x69, 0x7A}
@@ -253,7 +303,11 @@ func e2ePasswords(r *vh.Run) {
 			}
 			// change the user password (owner known), then open with the owner alone and with the new user password
 			if c.O != "" && c.O != c.U {
+				// mostly a new password that differs within the significant prefix; a few that differ only behind it
 				newU := "new" + c.U
+				if ci%4 == 0 && len(c.U) >= cut {
+					newU = c.U + "x"
+				}
 				var out bytes.Buffer
 				cf := confFor(a, c.U, c.O, model.PermissionsAll, false)
 				err := guard(func() error { return api.ChangeUserPassword(bytes.NewReader(enc), &out, c.U, newU, cf) })
@@ -267,15 +321,14 @@ func e2ePasswords(r *vh.Run) {
 					openAndCompare(r, c2, out.Bytes(), "", c.O, cls("after-change-upw:open-owner-only", sf2), in("ChangeUserPassword, open with owner only"))
 					openAndCompare(r, c2, out.Bytes(), newU, "", cls("after-change-upw:open-new-user", sf2), in("ChangeUserPassword, open with new user password"))
 					if c.U != "" {
-						if _, err := readCtx(out.Bytes(), c.U, ""); err == nil {
-							r.OracleFail("after-change-upw:old-user-password-still-opens", in("ChangeUserPassword, open with OLD user password"), "old user password accepted")
-						} else {
-							r.OracleOK()
-						}
+						staleCheck(r, a, out.Bytes(), false, c.U, newU, c.O, in("ChangeUserPassword, open with OLD user password"))
 					}
 				}
 				// change the owner password (user known), then open with the user alone and with the new owner alone
 				newO := "new" + c.O
+				if ci%4 == 2 && len(c.O) >= cut {
+					newO = c.O + "x"
+				}
 				out.Reset()
 				cf = confFor(a, c.U, c.O, model.PermissionsAll, false)
 				err = guard(func() error { return api.ChangeOwnerPassword(bytes.NewReader(enc), &out, c.O, newO, cf) })
@@ -288,6 +341,7 @@ func e2ePasswords(r *vh.Run) {
 					}
 					openAndCompare(r, c2, out.Bytes(), c.U, "", cls("after-change-opw:open-user-only", sf2), in("ChangeOwnerPassword, open with user only"))
 					openAndCompare(r, c2, out.Bytes(), "", newO, cls("after-change-opw:open-new-owner-only", sf2), in("ChangeOwnerPassword, open with new owner only"))
+					staleCheck(r, a, out.Bytes(), true, c.O, newO, c.U, in("ChangeOwnerPassword, open with OLD owner password"))
 				}
 			}
 		}
